@@ -184,6 +184,8 @@ def merge_states(cx, parent, states, base_len, base_pc, live=None):
         gk |= set(s.ghost.keys())
     mg = {}
     for k in gk:
+        if k.startswith('visited:') and any(k not in s.ghost for s in states):
+            continue   # the iterator does not exist on every arm: nothing is known about it
         ts = [s.ghost.get(k, z3.IntVal(0)) for s in states]
         if all(t.eq(ts[0]) for t in ts):
             mg[k] = ts[0]
